@@ -105,6 +105,9 @@ func genOver(t *rapid.T, nRunes int) []Over {
 			Pos:  rapid.IntRange(0, maxRunes-1).Draw(t, "pos"),
 			Text: rapid.SampledFrom(overTexts).Draw(t, "otext"),
 		})
+		if rapid.IntRange(0, 3).Draw(t, "emptytext") == 0 {
+			res[i].Text = "" // the glyph carries no text
+		}
 	}
 	return res
 }
@@ -299,6 +302,8 @@ func classify(c *Case) (bool, []string) {
 		add(o.exact256, "exactly-256-codes")
 		add(o.notdef, "notdef-glyph")
 		add(o.onlyNotdef, "font-with-only-glyph-0-not-read-back")
+		add(o.emptyText, "glyph-shown-with-empty-text")
+		add(o.onlyEmpty, "glyph-shown-only-with-empty-text")
 		add(o.fallback, "text-by-glyph-name")
 		add(o.toUnicode, "text-by-code")
 		add(o.wordSpace, "word-spacing-code")
